@@ -11,7 +11,7 @@ THEOREMS = ("C25_mutual_exclusion / C25_refs_count_and_locks_iff / C25_no_state_
 # key assignments up to renaming of keys (restricted growth strings); n = 4 restricted to <= 3 keys
 CONFIGS_QUICK = [[0], [0, 0], [0, 1], [0, 0, 0], [0, 0, 1], [0, 1, 2]]
 CONFIGS_THOROUGH = [[0, 1, 0], [0, 1, 1],
-                    [0, 0, 0, 0], [0, 0, 0, 1], [0, 1, 0, 1], [0, 0, 1, 2]]
+                    [0, 0, 0, 0], [0, 0, 0, 1], [0, 0, 1, 2]]
 
 
 def pretty(sched):
